@@ -3,7 +3,7 @@
     Model: Model/Conj.v (follows fggs/conjunction.py and fggs/utils.py:unique_label_name). *)
 From Coq Require Import List Arith Bool.
 Import ListNotations.
-Require Import Fggs.Model.Conj Fggs.Proofs.ConjNames Fggs.Proofs.ConjRule Fggs.Proofs.ConjHrg
+Require Import Fggs.Model.Conj Fggs.Model.ConjOld Fggs.Proofs.ConjNames Fggs.Proofs.ConjRule Fggs.Proofs.ConjHrg
                Fggs.Proofs.ConjBij Fggs.Proofs.ConjOracle Fggs.Proofs.ConjTotal Fggs.Proofs.ConjEnum
                Fggs.Proofs.ConjExamples.
 
@@ -75,25 +75,37 @@ Print Assumptions C17_terminal_conflict.
 (** * C17_rule *)
 (** for conjoinable well-formed rules, whenever [conjoin_rules] returns, the result has the
     nodes and externals of the pair, one nonterminal edge per shared edge with the paired label
-    and the shared attachment, the terminal edges of both, and is a well-typed rule *)
+    and the shared attachment (keeping the id of edge 1 if it is explicit, under an implicit id
+    otherwise), the terminal edges of both (those of rule 2 possibly re-created under an implicit
+    id), and is a well-typed rule.  [base] is the bound used to number fresh implicit ids. *)
 Theorem C17_rule :
-  forall r1 r2 m r,
+  forall base r1 r2 m r,
     wf_rule r1 -> wf_rule r2 -> conjoinable_model r1 r2 = true -> nt_values m ->
-    conjoin_rules_model r1 r2 m = Ok r -> conj_rule_spec r1 r2 m r.
+    conjoin_rules_model base r1 r2 m = Ok r -> conj_rule_spec r1 r2 m r.
 Proof. exact conjoin_rules_spec. Qed.
 Print Assumptions C17_rule.
+
+(** the "shared edges" of two conjoinable rules: the pairs of their id-sorted nonterminal edges
+    are exactly the pairs of nonterminal edges with the same id; they have the same attachment ids *)
+Theorem C17_shared_edges :
+  forall r1 r2, wf_rule r1 -> wf_rule r2 -> conjoinable_model r1 r2 = true ->
+    length (nt_sorted r1) = length (nt_sorted r2) /\
+    (forall e1 e2, In (e1, e2) (combine (nt_sorted r1) (nt_sorted r2)) <->
+       In e1 (nt_edges (r_rhs r1)) /\ In e2 (nt_edges (r_rhs r2)) /\ e_id e1 = e_id e2) /\
+    (forall e1 e2, In (e1, e2) (combine (nt_sorted r1) (nt_sorted r2)) ->
+       map n_id (e_att e1) = map n_id (e_att e2)).
+Proof. exact shared_pairs. Qed.
+Print Assumptions C17_shared_edges.
 
 (** the executable checker of C17_rule's conclusion, applied to every rule the implementation
     produces, is sound *)
 Theorem C17_rule_oracle_sound :
-  forall r1 r2 m r, wf_rule r1 -> wf_rule r2 -> conj_rule_ok r1 r2 m r = true -> conj_rule_spec r1 r2 m r.
+  forall r1 r2 m r, conj_rule_ok r1 r2 m r = true -> conj_rule_spec r1 r2 m r.
 Proof. exact conj_rule_ok_sound. Qed.
 Print Assumptions C17_rule_oracle_sound.
 
 Theorem C17_grammar_oracle_sound :
-  forall h1 h2 m g,
-    (forall r, In r (all_rules h1) -> wf_rule r) -> (forall r, In r (all_rules h2) -> wf_rule r) ->
-    conj_hrg_ok h1 h2 m g = true -> conj_hrg_spec h1 h2 m g.
+  forall h1 h2 m g, conj_hrg_ok h1 h2 m g = true -> conj_hrg_spec h1 h2 m g.
 Proof. exact conj_hrg_ok_sound. Qed.
 Print Assumptions C17_grammar_oracle_sound.
 
@@ -148,47 +160,51 @@ Theorem C17_count :
 Proof. exact conj_count. Qed.
 Print Assumptions C17_count.
 
-(** * when [conjoin_hrgs] returns: two defect classes of the unmodified code, and the guard *)
-(** the statement "for all HRGs without conflicting terminal labels conjoin_hrgs returns the
-    conjunction" is false for the code as it is: *)
-Theorem C17_total_refuted_shared_terminal_id :
+(** * when [conjoin_hrgs] returns *)
+(** before /repo commit 00f91d1 the statement "for all HRGs without conflicting terminal labels
+    conjoin_hrgs returns the conjunction" was false; the witnesses, about the old definitions
+    (Model/ConjOld.v) only -- the current model returns on both: *)
+Theorem C17_total_refuted_shared_terminal_id_old :
   exists h1 h2, wf_hrg_b h1 = true /\ wf_hrg_b h2 = true /\ has_tt_conflict h1 h2 = false /\
-                defect_shared_terminal_id h1 h2 = true /\ conjoin_hrgs_model h1 h2 = Err ValueErr.
-Proof. exact shared_terminal_id_refuted. Qed.
-Print Assumptions C17_total_refuted_shared_terminal_id.
+                defect_shared_terminal_id_old h1 h2 = true /\
+                conjoin_hrgs_model_old h1 h2 = Err ValueErr /\
+                exists g, conjoin_hrgs_model h1 h2 = Ok g.
+Proof. exact shared_terminal_id_refuted_old. Qed.
+Print Assumptions C17_total_refuted_shared_terminal_id_old.
 
-Theorem C17_total_refuted_implicit_nt_id :
+Theorem C17_total_refuted_implicit_nt_id_old :
   exists h1 h2, wf_hrg_b h1 = true /\ wf_hrg_b h2 = true /\ has_tt_conflict h1 h2 = false /\
-                defect_int_nt_id h1 h2 = true /\ conjoin_hrgs_model h1 h2 = Err TypeErr.
-Proof. exact int_nt_id_refuted. Qed.
-Print Assumptions C17_total_refuted_implicit_nt_id.
+                defect_int_nt_id_old h1 h2 = true /\
+                conjoin_hrgs_model_old h1 h2 = Err TypeErr /\
+                exists g, conjoin_hrgs_model h1 h2 = Ok g.
+Proof. exact int_nt_id_refuted_old. Qed.
+Print Assumptions C17_total_refuted_implicit_nt_id_old.
 
 (** rule level: [conjoin_rules] returns on well-formed conjoinable rules when nt_map covers the
-    labels involved, no nonterminal edge of rule 1 has an implicit id and no terminal-edge id is shared *)
+    labels involved and [base] bounds the terminal-edge ids of rule 1 *)
 Theorem C17_rule_total :
-  forall r1 r2 m,
+  forall base r1 r2 m,
     wf_rule r1 -> wf_rule r2 -> conjoinable_model r1 r2 = true ->
     (exists L, nt_get m (r_lhs r1, r_lhs r2) = Some L /\ el_term L = false /\
                el_type L = el_type (r_lhs r1)) ->
     (forall e1 e2, In e1 (nt_edges (r_rhs r1)) -> In e2 (nt_edges (r_rhs r2)) ->
        exists l, nt_get m (e_lab e1, e_lab e2) = Some l /\ el_type l = el_type (e_lab e1)) ->
-    (forall e, In e (nt_edges (r_rhs r1)) -> is_int_id (e_id e) = false) ->
-    shares_terminal_id r1 r2 = false ->
-    exists r, conjoin_rules_model r1 r2 m = Ok r.
+    (forall e, In e (t_edges (r_rhs r1)) -> e_id e <= base) ->
+    exists r, conjoin_rules_model base r1 r2 m = Ok r.
 Proof. exact conjoin_rules_total. Qed.
 Print Assumptions C17_rule_total.
 
-(** under the guard [ids_ok] (no conjoinable pair shares a terminal-edge id or has a nonterminal
-    edge with an implicit id) and without a terminal conflict, [conjoin_hrgs] returns *)
+(** [conjoin_hrgs] succeeds on every pair of well-formed grammars without a terminal label
+    conflict (implicit ids, shared terminal-edge ids, conjoining a grammar with itself included) *)
 Theorem C17_total :
   forall h1 h2,
-    wf_hrg_b h1 = true -> wf_hrg_b h2 = true -> has_tt_conflict h1 h2 = false -> ids_ok h1 h2 = true ->
+    wf_hrg_b h1 = true -> wf_hrg_b h2 = true -> has_tt_conflict h1 h2 = false ->
     exists g, conjoin_hrgs_model h1 h2 = Ok g.
 Proof. exact conjoin_hrgs_total. Qed.
 Print Assumptions C17_total.
 
 (** non-vacuity: a pair of recursive grammars satisfying every hypothesis above *)
 Theorem C17_example :
-  wf_hrg_b exA = true /\ wf_hrg_b exB = true /\ has_tt_conflict exA exB = false /\ ids_ok exA exB = true.
+  wf_hrg_b exA = true /\ wf_hrg_b exB = true /\ has_tt_conflict exA exB = false.
 Proof. exact ex_wf. Qed.
 Print Assumptions C17_example.
